@@ -53,6 +53,13 @@ def validTopK (metric k : Nat) (M R : List VHit) : Bool :=
 def soundHits (k : Nat) (M R : List VHit) : Bool :=
   R.all (fun r => M.contains r) && R.eraseDups.length ≤ k
 
+/-- Clustered (IVF) indexes: sound, and - squared-L2 metric only - a query that coincides with
+    an admissible vector finds a hit at distance 0 (the vector lives in the cluster of its
+    nearest centroid, which is the first cluster probed for that very query). -/
+def clusteredHits (metric k : Nat) (M R : List VHit) : Bool :=
+  soundHits k M R &&
+  (if metric = 0 ∧ k ≥ 1 ∧ M.any (fun m => m.score == 0) then R.any (fun r => r.score == 0) else true)
+
 /-- index class chosen at build/merge: exact below 1000 vectors -/
 def isExact (ix : VecIx) : Bool := Gen.determineIndexClass ix.vecs.length (ix.opt == 2) == 0
 
